@@ -7,6 +7,8 @@ operations (copy, scaled uniform / per axis, convert_units, rezero, apply_transf
 Reference model: the C09 dictionary forest + raw arrays per geometry; explicit placement =
 for every node with geometry, world matrix applied to the arrays.
 """
+import os
+
 import numpy as np
 
 from ..core.engine import HarnessError, Inapplicable, seed_lib_rng
@@ -140,11 +142,22 @@ def canon_tris(T):
     return np.array(out)
 
 
+def _lib_dir():
+    import trimesh
+
+    return os.path.dirname(os.path.abspath(trimesh.__file__)) + os.sep
+
+
+_LIB = []
+
+
 def _in_library(e):
     """True when some frame of the traceback belongs to trimesh (the library raised, not the harness alone)."""
+    if not _LIB:
+        _LIB.append(_lib_dir())
     tb = e.__traceback__
     while tb is not None:
-        if "/repo/trimesh/" in tb.tb_frame.f_code.co_filename:
+        if tb.tb_frame.f_code.co_filename.startswith(_LIB[0]):
             return True
         tb = tb.tb_next
     return False
